@@ -127,6 +127,7 @@ class Ctx:
         self.failure: Optional[dict] = None  # smallest failing case so far
         self._calls_after_failure = 0
         self.case_timeout = CASE_TIMEOUT_S  # CPU seconds per oracle call; a check may lower it (mod.CASE_TIMEOUT_S)
+        self.hang_is_violation = False  # see guard(): set from mod.HANG_IS_VIOLATION
         self.shrink_budget = 400 if tier == "quick" else 1500
         self.t0 = time.time()
         self.budget_s = float(
@@ -178,9 +179,15 @@ class Ctx:
         except Abstain as a:
             self.abstain(a.reason)
         except CaseTimeout:
-            # A case normally costs milliseconds; CASE_TIMEOUT_S (150 s) without returning is
-            # reported as non-termination of the code under test.  Not shrunk (each attempt
-            # would cost the full timeout).
+            # A case normally costs milliseconds.  Exceeding the CPU budget is, by default, INCONCLUSIVE (several
+            # compilers are exponential by nature - DNF of expanded quantifiers - and a budget hit is never a
+            # correctness signal).  Only checks whose property is about termination / decision procedures opt in
+            # (HANG_IS_VIOLATION = True: C25's incremental STN, C31's planning loop); there it is reported as
+            # non-termination, not shrunk (each attempt would cost the full budget).
+            if not self.hang_is_violation:
+                self.abstain("cpu-budget-exceeded")
+                self.classes["inconclusive:cpu-budget-exceeded"] += 1
+                return
             v = Violation("hang", f"no result within {self.case_timeout}s of CPU time (non-termination)", case)
             if v.sig in self.known_sigs:
                 self.excluded_known[v.sig] += 1
@@ -307,6 +314,7 @@ def _worker(args):
         mod = importlib.import_module(modname)
         ctx = Ctx(prop, tier, seed, shard, nshards)
         ctx.case_timeout = getattr(mod, "CASE_TIMEOUT_S", ctx.case_timeout)
+        ctx.hang_is_violation = getattr(mod, "HANG_IS_VIOLATION", False)
         mod.shard(ctx)
         return ctx.result()
     except BaseException as e:  # harness error inside the worker
@@ -476,11 +484,15 @@ def main_run(prop: str, tier: str, seed: int, replay_path: Optional[str] = None,
         with open(replay_path) as f:
             rep = json.load(f)
         ctx = Ctx(prop, tier, seed, 0, 1)
+        ctx.case_timeout = getattr(mod, "CASE_TIMEOUT_S", ctx.case_timeout)
         ctx.known_sigs = set()
         try:
             ctx.timed(mod.replay, ctx, rep["case"])
         except CaseTimeout:
-            print(f"replay: no result within {CASE_TIMEOUT_S}s (non-termination)")
+            if not getattr(mod, "HANG_IS_VIOLATION", False):
+                print(f"replay: inconclusive (CPU budget of {ctx.case_timeout}s exceeded)")
+                return 0
+            print(f"replay: no result within {ctx.case_timeout}s of CPU time (non-termination)")
             print(f"VIOLATION property={prop} replay={replay_path}")
             return 1
         except Violation as v:
